@@ -108,8 +108,18 @@ def scan : List Char → St → List Piece
   | [], st => flush st
   | c :: cs, st => (step c st).1 ++ scan cs (step c st).2
 
+def digitChar (d : Nat) : Char :=
+  match d with
+  | 0 => '0' | 1 => '1' | 2 => '2' | 3 => '3' | 4 => '4' | 5 => '5' | 6 => '6' | 7 => '7' | 8 => '8' | _ => '9'
+
+/-- digits of `n` in front of `acc`, most significant first (`fuel > number of digits`). -/
+def digitsFuel : Nat → Nat → List Char → List Char
+  | 0, _, acc => acc
+  | fuel + 1, n, acc =>
+    if n < 10 then digitChar n :: acc else digitsFuel fuel (n / 10) (digitChar (n % 10) :: acc)
+
 /-- decimal digits of `n` (`str(n)`) -/
-def natChars (n : Nat) : List Char := Nat.toDigits 10 n
+def natChars (n : Nat) : List Char := digitsFuel (n + 1) n []
 
 /-- the characters of `solved_values(` -/
 def svOpen : List Char := ['s', 'o', 'l', 'v', 'e', 'd', '_', 'v', 'a', 'l', 'u', 'e', 's', '(']
@@ -178,6 +188,45 @@ def Expr.map {α β : Type} (f : α → β) : Expr α → Expr β
   | .bin op x y => .bin op (x.map f) (y.map f)
   | .fn1 g x => .fn1 g (x.map f)
   | .fn2 g x y => .fn2 g (x.map f) (y.map f)
+
+/-! ### Concrete syntax shared by both back-ends (fully parenthesised) -/
+
+/-- `""`, `"+k"` or `"-k"`: how an offset is written after `t` inside the brackets. -/
+def offChars (off : Int) : List Char :=
+  if off = 0 then [] else if off > 0 then '+' :: natChars off.toNat else '-' :: natChars (-off).toNat
+
+def opChars : BinOp → List Char
+  | .add => ['+'] | .sub => ['-'] | .mul => ['*'] | .div => ['/'] | .pow => ['*', '*']
+
+def fn1Chars : Fn1 → List Char
+  | .exp => ['e', 'x', 'p'] | .log => ['l', 'o', 'g'] | .abs => ['a', 'b', 's']
+
+def fn2Chars : Fn2 → List Char
+  | .max => ['m', 'a', 'x'] | .min => ['m', 'i', 'n']
+
+/-- `e` digits of `r`, zero-padded on the left. -/
+def padDigits : Nat → Nat → List Char
+  | 0, _ => []
+  | e + 1, r => padDigits e (r / 10) ++ [digitChar (r % 10)]
+
+/-- The decimal literal `m·10⁻ᵉ` written out: integer part, point, `e` fractional digits. -/
+def decChars (m e : Nat) : List Char := natChars (m / 10 ^ e) ++ '.' :: padDigits e (m % 10 ^ e)
+
+/-- Text of an expression; `atom` writes a variable reference. -/
+def renderExpr {α} (atom : α → Int → List Char) : Expr α → List Char
+  | .int n => natChars n
+  | .dec m e => decChars m e
+  | .var a off => atom a off
+  | .neg x => '(' :: '-' :: (renderExpr atom x ++ [')'])
+  | .bin op x y => '(' :: (renderExpr atom x ++ ' ' :: (opChars op ++ ' ' :: (renderExpr atom y ++ [')'])))
+  | .fn1 f x => fn1Chars f ++ '(' :: (renderExpr atom x ++ [')'])
+  | .fn2 f x y => fn2Chars f ++ '(' :: (renderExpr atom x ++ ',' :: ' ' :: (renderExpr atom y ++ [')']))
+
+/-- `NAME[t]`, `NAME[t-1]`, `NAME[t+2]`: a reference as the parser writes it into `Symbol.equation`. -/
+def eqAtom (name : List Char) (off : Int) : List Char := name ++ '[' :: 't' :: (offChars off ++ [']'])
+
+/-- `solved_values(n, index)`, `solved_values(n, index-1)`, … -/
+def fAtom (n : Nat) (off : Int) : List Char := refText n ('t' :: offChars off)
 
 /-- The real operators of one floating-point kind.  Theorems quantify over every instance. -/
 structure RealOps (F : Type) where
